@@ -62,6 +62,10 @@ P = {
    "Real controller (real New, real scheduler, chain time and subscriber) on the virtual clock: sync-period length {2,4,8} x Altair fork epoch {0,1,3} x every slot-start clock position of the first 2-3 periods x start-up / direct scheduling x membership patterns; real messenger + aggregator + signer for every {ok, no account, no signature}^3 member combination over three slots; aggregator selection for 5 committee geometries on boundary hashes against a sha256 reference. Inputs and fault subsets are enumerated completely within the alphabet.",
    "Trusted: recording messenger in the window part; remote-signer stand-in turning a nil batch entry into a zero signature (as dirk does); in-package hook exposing scheduleSyncCommitteeMessages / firstEpochOfSyncPeriod.",
    SEQ, "DESIGN.md §6 C15"),
+ "C11": ("model_checking",
+   "Real block relay registration rounds, REST registrations and the real proposal preparer with 3 validators, 2 relays, 2 beacon nodes: every history of 1..3 rounds over 5 configuration documents x 4 failing parties, a refresh preceding each round; fan-out goroutines explored under deviation-bounded schedules (quick 0, thorough 1); every relay / node delivery and every signing request is compared with hand-written resolved settings, and signatures encode the signed content so that stale reuse is visible.",
+   "Trusted: expected settings per document written out by hand (C10 checks the resolver); relay clients injected through the util hook; REST daemon stubbed.",
+   MC + " (deviation-bounded)", "DESIGN.md §6 C11"),
 }
 checks = []
 for pid in ids:
